@@ -19,3 +19,8 @@ CHECKS['C14'] = dict(
     text='Generated add/addProfiles/remove/remove-all/defaultProfiles histories (6k quick, 120k thorough) with profiles that shadow token, general, foreign and private macros; verdicts, known names, profile list compared with a contents-only model after every step. Exploration, not proof.',
     note='Trusted: the reference model (40 lines) incl. its re-implementation of macro expansion; sound domain: no double registration, profiles only use macros they define or built-in ones.',
 )
+CHECKS['C07'] = dict(
+    technique='exhaustive enumeration of the detector table against a CSS 2.1 section 4.4 reference + property-based round trip and chunk-schedule differential testing (Hypothesis) with Python codecs as oracle',
+    text='Detector: all 16105 prefixes of length 0-4 over the 11 byte classes x tails x final, exhaustive, plus never-wrong under extension. Round trip over 15 encodings and generated chunk schedules for incremental/stream encoders and decoders against the one-shot result. Exploration beyond the finite table.',
+    note='Trusted: Python standard codecs, my 25-line reference detector; charset names in texts are known codecs; end-of-stream losses of the stream API and CJK cuts are listed findings F07-2/3/8.',
+)
